@@ -329,4 +329,315 @@ theorem run_opRename (a b : Bytes) (s : DState) :
   unfold opRename; rw [run_bind, run_get]
 
 
+/-! ### a walk through `do` blocks
+
+`spec_walk g` (with `g : Good R E`) decomposes a goal `Spec R E m` along the structure of an unfolded `do` block:
+binds, `if`s, matches, `for` loops and the join points `have __do_jp := …` the `do` elaborator generates (each join
+point is proved once and then used as a hypothesis).  Calls of other programs are closed by `spec_leaf g`, which is
+extended with `macro_rules` as lemmas become available; what it cannot close is left to the caller. -/
+
+section
+variable {α β γ : Type} {R : DState → DState → Prop} {E : Exn → DState → DState → Prop}
+theorem Spec.cut1 (jp : β → DM α) {m : DM γ} (h1 : ∀ x, Spec R E (jp x))
+    (h2 : (∀ x, Spec R E (jp x)) → Spec R E m) : Spec R E m := h2 h1
+theorem Spec.cut2 {β' : Type} (jp : β → β' → DM α) {m : DM γ} (h1 : ∀ x y, Spec R E (jp x y))
+    (h2 : (∀ x y, Spec R E (jp x y)) → Spec R E m) : Spec R E m := h2 h1
+theorem Spec.fsExists (g : Good R E) (p : Bytes) : Spec R E (fsExists p) := (fsExists_readOnly p).spec g
+theorem Spec.fsIsRegular (g : Good R E) (p : Bytes) : Spec R E (fsIsRegular p) := (fsIsRegular_readOnly p).spec g
+theorem Spec.fsGetPerms (g : Good R E) (p : Bytes) : Spec R E (fsGetPerms p) := (fsGetPerms_readOnly p).spec g
+end
+
+set_option linter.tactic.unusedName false
+
+syntax "spec_leaf " term:max : tactic
+syntax "spec_walk " term:max : tactic
+
+macro_rules | `(tactic| spec_leaf $g) => `(tactic| with_reducible first
+  | exact Spec.pure $g _
+  | exact Spec.get $g
+  | assumption
+  | apply_assumption
+  | exact Spec.fsExists $g _
+  | exact Spec.fsIsRegular $g _
+  | exact Spec.fsGetPerms $g _)
+
+macro_rules | `(tactic| spec_walk $g) => `(tactic| (
+  first
+  | spec_leaf $g
+  | (extract_lets -underBinder +onlyGivenNames jp
+     first
+     | (refine Spec.cut2 jp (fun x y => ?_) (fun hjp => ?_)
+        rotate_left; focus (clear_value jp; spec_walk $g)
+        rotate_right; focus (dsimp -zeta only [jp]; spec_walk $g))
+     | (refine Spec.cut1 jp (fun x => ?_) (fun hjp => ?_)
+        rotate_left; focus (clear_value jp; spec_walk $g)
+        rotate_right; focus (dsimp -zeta only [jp]; spec_walk $g))
+     | (clear_value jp; spec_walk $g))
+  | (with_reducible refine Spec.bind $g ?_ (fun _ => ?_) <;> spec_walk $g)
+  | (with_reducible refine Spec.ite ?_ ?_ <;> spec_walk $g)
+  | (with_reducible refine Spec.forIn $g _ _ (fun _ _ => ?_) _ ; spec_walk $g)
+  | (split <;> spec_walk $g)
+  | skip))
+
+/-! ### `TrExt A`: the trace grows by operations in `A` (whatever the outcome) -/
+
+def ExtR (A : FsOp → Prop) (s s' : DState) : Prop := ∃ ops, s'.trace = s.trace ++ ops ∧ ∀ op ∈ ops, A op
+
+theorem ExtR.refl (A) (s : DState) : ExtR A s s := ⟨[], by simp, by simp⟩
+theorem ExtR.of_eq {A} {s s' : DState} (h : s'.trace = s.trace) : ExtR A s s' := ⟨[], by simp [h], by simp⟩
+theorem ExtR.step {A} {s s' : DState} {op : FsOp} (h : s'.trace = s.trace ++ [op]) (ha : A op) : ExtR A s s' :=
+  ⟨[op], h, by simpa using ha⟩
+theorem ExtR.trans {A} {s s1 s2 : DState} (h1 : ExtR A s s1) (h2 : ExtR A s1 s2) : ExtR A s s2 := by
+  obtain ⟨o1, e1, a1⟩ := h1
+  obtain ⟨o2, e2, a2⟩ := h2
+  refine ⟨o1 ++ o2, by rw [e2, e1, List.append_assoc], ?_⟩
+  intro op hop
+  rcases List.mem_append.1 hop with h | h
+  · exact a1 op h
+  · exact a2 op h
+theorem ExtR.mono {A A' : FsOp → Prop} (h : ∀ op, A op → A' op) {s s' : DState} (h1 : ExtR A s s') :
+    ExtR A' s s' := by
+  obtain ⟨o1, e1, a1⟩ := h1
+  exact ⟨o1, e1, fun op hop => h op (a1 op hop)⟩
+
+abbrev TrExt {α} (A : FsOp → Prop) (m : DM α) : Prop := Spec (ExtR A) (fun _ => ExtR A) m
+
+theorem good_ext (A : FsOp → Prop) : Good (ExtR A) (fun _ => ExtR A) :=
+  ⟨ExtR.refl A, ExtR.trans, ExtR.trans⟩
+
+theorem TrExt.mono {α} {A A' : FsOp → Prop} {m : DM α} (h : TrExt A m) (hA : ∀ op, A op → A' op) : TrExt A' m :=
+  Spec.weaken h (fun _ _ => ExtR.mono hA) (fun _ _ _ => ExtR.mono hA)
+
+/-- the definition, spelled out -/
+theorem TrExt.run {α} {A : FsOp → Prop} {m : DM α} (h : TrExt A m) {s s' : DState} {r : Except Exn α}
+    (hr : m.run s = (r, s')) : ∃ ops, s'.trace = s.trace ++ ops ∧ ∀ op ∈ ops, A op := by
+  cases r with
+  | ok a => exact h.ok _ _ _ hr
+  | error e => exact h.err _ _ _ hr
+
+section
+variable {α : Type} {A : FsOp → Prop}
+theorem TrExt.throw (e : Exn) : TrExt A (throw e : DM α) := Spec.throw e (fun s => ExtR.refl A s)
+theorem TrExt.modify (f : DState → DState) (h : ∀ s, (f s).trace = s.trace) : TrExt A (modify f : DM Unit) :=
+  Spec.modify f (fun s => ExtR.of_eq (h s))
+theorem TrExt.emit (ev : DEv) : TrExt A (emit ev) := Spec.emit ev (fun _ => ExtR.of_eq rfl)
+theorem TrExt.failNow : TrExt A failNow := Spec.failNow (fun _ => ExtR.of_eq rfl)
+theorem TrExt.liftE (x : Except Exn α) : TrExt A (liftE x) := Spec.liftE (good_ext A) x (fun _ _ s => ExtR.refl A s)
+theorem TrExt.doOp {op : FsOp} (h : A op) : TrExt A (doOp op) :=
+  Spec.doOp op (fun _ _ _ => ExtR.step rfl h) (fun _ => ExtR.of_eq rfl)
+theorem TrExt.tryOp {op : FsOp} (tol : Errno → Bool) (h : A op) : TrExt A (tryOp op tol) :=
+  Spec.tryOp op tol (fun _ _ _ => ExtR.step rfl h) (fun _ => ExtR.of_eq rfl) (fun _ => ExtR.of_eq rfl)
+end
+
+/-- leaves of a `TrExt` walk; side conditions `A op` are tried with `assumption`/`simp` -/
+syntax "trext_side" : tactic
+macro_rules | `(tactic| trext_side) => `(tactic| first | assumption | apply_assumption | (intros; simp [FsOp.isTmp]; done))
+
+macro_rules | `(tactic| spec_leaf $_) => `(tactic| with_reducible first
+  | exact TrExt.throw _
+  | exact TrExt.emit _
+  | exact TrExt.failNow
+  | exact TrExt.liftE _
+  | exact TrExt.modify _ (fun _ => rfl)
+  | exact TrExt.doOp (by trext_side)
+  | exact TrExt.tryOp _ (by trext_side))
+
+section
+variable {A : FsOp → Prop}
+
+theorem createTemp_trExt (h1 : A .tmpCreate) (h2 : A .tmpUnlink) : TrExt A createTemp := by
+  unfold createTemp; spec_walk (good_ext A)
+theorem opCreat_trExt (h : ∀ p, A (.creat p)) (p : Bytes) : TrExt A (opCreat p) := by
+  unfold opCreat; spec_walk (good_ext A)
+theorem opWrite_trExt (h : ∀ p b, A (.write p b)) (p b : Bytes) : TrExt A (opWrite p b) := by
+  unfold opWrite; spec_walk (good_ext A)
+theorem opChmod_trExt (h : ∀ p m, A (.chmod p m)) (p : Bytes) (m : Nat) : TrExt A (opChmod p m) := by
+  unfold opChmod; spec_walk (good_ext A)
+theorem writeFile_trExt (h1 : ∀ p, A (.creat p)) (h2 : ∀ p b, A (.write p b)) (p b : Bytes) :
+    TrExt A (writeFile p b) := by
+  unfold writeFile; spec_walk (good_ext A)
+  · exact opCreat_trExt h1 _
+  · exact opWrite_trExt h2 _ _
+theorem ensureParentDirs_trExt (h : ∀ p, A (.mkdir p)) (p : Bytes) : TrExt A (ensureParentDirs p) := by
+  unfold ensureParentDirs; spec_walk (good_ext A)
+theorem permissionCallback_trExt (h : ∀ p m, A (.chmod p m)) (nm : Nat) (perm : PermResult) (p : Bytes) :
+    TrExt A (permissionCallback nm perm p) := by
+  unfold permissionCallback; spec_walk (good_ext A) <;> exact opChmod_trExt h _ _
+theorem removeFileAndEmptyParents_trExt (h1 : ∀ p, A (.unlink p)) (h2 : ∀ p, A (.rmdir p)) (p : Bytes) :
+    TrExt A (removeFileAndEmptyParents p) := by
+  unfold removeFileAndEmptyParents; spec_walk (good_ext A)
+theorem fixPermissionsIfNeeded_trExt (h : ∀ p m, A (.chmod p m)) (o : Options) (p : Bytes) :
+    TrExt A (fixPermissionsIfNeeded o p) := by
+  unfold fixPermissionsIfNeeded; spec_walk (good_ext A)
+  all_goals exact opChmod_trExt h _ _
+
+end
+
+/-- two phases -/
+theorem TrExt.seq2 {α β} {A B : FsOp → Prop} {m1 : DM α} {m2 : α → DM β} (h1 : TrExt A m1) (h2 : ∀ a, TrExt B (m2 a))
+    {s s' : DState} {r : Except Exn β} (h : (m1 >>= m2).run s = (r, s')) :
+    ∃ ws rs, s'.trace = s.trace ++ ws ++ rs ∧ (∀ op ∈ ws, A op) ∧ (∀ op ∈ rs, B op) := by
+  rw [run_bind] at h
+  split at h
+  · next a s1 hm =>
+    obtain ⟨ws, e1, hw⟩ := h1.run hm
+    obtain ⟨rs, e2, hr⟩ := (h2 a).run h
+    exact ⟨ws, rs, by rw [e2, e1], hw, hr⟩
+  · next e s1 hm =>
+    cases h
+    obtain ⟨ws, e1, hw⟩ := h1.run hm
+    exact ⟨ws, [], by rw [e1]; simp, hw, by simp⟩
+
+
+/-! ### `Quiet`: failure flag unchanged, only harmless events printed, only `system_error` thrown -/
+
+/-- the events that make a run "not clean" (same as `C04x.badEvent`) -/
+def isBadEv : DEv → Bool
+  | .failed _ _ _ _ => true
+  | .skipping => true
+  | .refusing => true
+  | .notDeleting => true
+  | .binary => true
+  | _ => false
+
+def QR (s s' : DState) : Prop :=
+  s'.hadFailure = s.hadFailure ∧ ∃ evs, s'.out = s.out ++ evs ∧ ∀ ev ∈ evs, isBadEv ev = false
+
+theorem QR.refl (s : DState) : QR s s := ⟨rfl, [], by simp, by simp⟩
+theorem QR.of_eq {s s' : DState} (h1 : s'.hadFailure = s.hadFailure) (h2 : s'.out = s.out) : QR s s' :=
+  ⟨h1, [], by simp [h2], by simp⟩
+theorem QR.trans {s s1 s2 : DState} (h1 : QR s s1) (h2 : QR s1 s2) : QR s s2 := by
+  obtain ⟨f1, o1, e1, a1⟩ := h1
+  obtain ⟨f2, o2, e2, a2⟩ := h2
+  refine ⟨f2.trans f1, o1 ++ o2, by rw [e2, e1, List.append_assoc], ?_⟩
+  intro ev hev
+  rcases List.mem_append.1 hev with h | h
+  · exact a1 ev h
+  · exact a2 ev h
+
+abbrev Quiet {α} (m : DM α) : Prop := Spec QR (fun e s s' => e = .systemError ∧ QR s s') m
+abbrev Neutral {α} (m : DM α) : Prop := Spec QR (fun _ _ _ => True) m
+
+theorem good_quiet : Good QR (fun e s s' => e = .systemError ∧ QR s s') :=
+  ⟨QR.refl, QR.trans, fun h1 h2 => ⟨h2.1, QR.trans h1 h2.2⟩⟩
+theorem good_neutral : Good QR (fun _ _ _ => True) := ⟨QR.refl, QR.trans, fun _ _ => trivial⟩
+
+theorem Neutral.of_quiet {α} {m : DM α} (h : Quiet m) : Neutral m :=
+  Spec.weaken h (fun _ _ h => h) (fun _ _ _ _ => trivial)
+
+section
+variable {α : Type}
+theorem Quiet.throw_sys : Quiet (throw .systemError : DM α) := Spec.throw _ (fun s => ⟨rfl, QR.refl s⟩)
+theorem Quiet.emit (ev : DEv) (h : isBadEv ev = false) : Quiet (emit ev) :=
+  Spec.emit ev (fun s => ⟨rfl, [ev], rfl, by simpa using h⟩)
+theorem Quiet.modify (f : DState → DState) (h1 : ∀ s, (f s).hadFailure = s.hadFailure) (h2 : ∀ s, (f s).out = s.out) :
+    Quiet (modify f : DM Unit) := Spec.modify f (fun s => QR.of_eq (h1 s) (h2 s))
+theorem Quiet.doOp (op : FsOp) : Quiet (doOp op) :=
+  Spec.doOp op (fun _ _ _ => QR.of_eq rfl rfl) (fun _ => ⟨rfl, QR.of_eq rfl rfl⟩)
+theorem Quiet.tryOp (op : FsOp) (tol : Errno → Bool) : Quiet (tryOp op tol) :=
+  Spec.tryOp op tol (fun _ _ _ => QR.of_eq rfl rfl) (fun _ => QR.of_eq rfl rfl) (fun _ => ⟨rfl, QR.of_eq rfl rfl⟩)
+theorem Neutral.throw (e : Exn) : Neutral (throw e : DM α) := Spec.throw _ (fun _ => trivial)
+theorem Neutral.liftE (x : Except Exn α) : Neutral (liftE x) := Spec.liftE good_neutral x (fun _ _ _ => trivial)
+theorem Neutral.modify (f : DState → DState) (h1 : ∀ s, (f s).hadFailure = s.hadFailure) (h2 : ∀ s, (f s).out = s.out) :
+    Neutral (modify f : DM Unit) := Spec.modify f (fun s => QR.of_eq (h1 s) (h2 s))
+end
+
+macro_rules | `(tactic| spec_leaf $_) => `(tactic| with_reducible first
+  | exact Quiet.throw_sys
+  | exact Quiet.emit _ rfl
+  | exact Quiet.modify _ (fun _ => rfl) (fun _ => rfl)
+  | exact Quiet.doOp _
+  | exact Quiet.tryOp _ _
+  | exact Neutral.throw _
+  | exact Neutral.liftE _
+  | exact Neutral.modify _ (fun _ => rfl) (fun _ => rfl))
+
+theorem readTty_quiet : Quiet readTty := by
+  constructor
+  · intro s a s' h
+    unfold readTty at h
+    rw [run_bind, run_get] at h
+    simp only [] at h
+    split at h
+    · cases h
+    · cases h; exact QR.refl s
+    · rw [run_bind, run_set] at h; cases h; exact QR.of_eq rfl rfl
+  · intro s e s' h
+    unfold readTty at h
+    rw [run_bind, run_get] at h
+    simp only [] at h
+    split at h
+    · cases h; exact ⟨rfl, QR.refl s⟩
+    · cases h
+    · rw [run_bind, run_set] at h; cases h
+
+theorem createTemp_quiet : Quiet createTemp := by unfold createTemp; spec_walk good_quiet
+theorem opCreat_quiet (p : Bytes) : Quiet (opCreat p) := by unfold opCreat; spec_walk good_quiet
+theorem opWrite_quiet (p b : Bytes) : Quiet (opWrite p b) := by unfold opWrite; spec_walk good_quiet
+theorem opChmod_quiet (p : Bytes) (m : Nat) : Quiet (opChmod p m) := by unfold opChmod; spec_walk good_quiet
+theorem opRename_quiet (a b : Bytes) : Quiet (opRename a b) := by unfold opRename; spec_walk good_quiet
+
+macro_rules | `(tactic| spec_leaf $_) => `(tactic| with_reducible first
+  | exact readTty_quiet | exact createTemp_quiet | exact opCreat_quiet _ | exact opWrite_quiet _ _
+  | exact opChmod_quiet _ _ | exact opRename_quiet _ _)
+
+theorem writeFile_quiet (p b : Bytes) : Quiet (writeFile p b) := by unfold writeFile; spec_walk good_quiet
+theorem ensureParentDirs_quiet (p : Bytes) : Quiet (ensureParentDirs p) := by
+  unfold ensureParentDirs; spec_walk good_quiet
+theorem permissionCallback_quiet (nm : Nat) (perm : PermResult) (p : Bytes) : Quiet (permissionCallback nm perm p) := by
+  unfold permissionCallback; spec_walk good_quiet
+theorem removeFileAndEmptyParents_quiet (p : Bytes) : Quiet (removeFileAndEmptyParents p) := by
+  unfold removeFileAndEmptyParents; spec_walk good_quiet
+theorem fixPermissionsIfNeeded_quiet (o : Options) (p : Bytes) : Quiet (fixPermissionsIfNeeded o p) := by
+  unfold fixPermissionsIfNeeded; spec_walk good_quiet
+theorem guessFilepath_quiet (p : Patch) (r : Bool) : Quiet (guessFilepath p r) := by
+  unfold guessFilepath; spec_walk good_quiet
+theorem checkWithUser_quiet (q : String) (d : Bool) : Quiet (checkWithUser q d) := by
+  unfold checkWithUser; spec_walk good_quiet
+
+macro_rules | `(tactic| spec_leaf $_) => `(tactic| with_reducible first
+  | exact writeFile_quiet _ _ | exact ensureParentDirs_quiet _ | exact permissionCallback_quiet _ _ _
+  | exact removeFileAndEmptyParents_quiet _ | exact fixPermissionsIfNeeded_quiet _ _
+  | exact guessFilepath_quiet _ _ | exact checkWithUser_quiet _ _)
+
+theorem promptForFilepath_quiet : ∀ n, Quiet (promptForFilepath n)
+  | 0 => by unfold promptForFilepath; spec_walk good_quiet
+  | n + 1 => by
+    have ih := promptForFilepath_quiet n
+    unfold promptForFilepath; spec_walk good_quiet
+
+/-- `makeBackupFor` in any `Good` specification that tolerates the bookkeeping and the two possible operations -/
+theorem makeBackupFor_spec {R E} (g : Good R E) (o : Options) (p : Bytes)
+    (hb : ∀ s bn, R s { s with backedUp := s.backedUp ++ [bn] })
+    (h1 : ∀ a b, Spec R E (doOp (.rename a b))) (h2 : ∀ a, Spec R E (doOp (.creat a))) :
+    Spec R E (makeBackupFor o p) := by
+  constructor
+  · intro s a s' h
+    rw [makeBackupFor_run] at h
+    split at h
+    · cases h; exact g.refl s
+    · split at h
+      · exact g.trans (hb s _) ((h1 _ _).ok _ _ _ h)
+      · exact g.trans (hb s _) ((h2 _).ok _ _ _ h)
+  · intro s e s' h
+    rw [makeBackupFor_run] at h
+    split at h
+    · cases h
+    · split at h
+      · exact g.absorb (hb s _) ((h1 _ _).err _ _ _ h)
+      · exact g.absorb (hb s _) ((h2 _).err _ _ _ h)
+
+theorem makeBackupFor_quiet (o : Options) (p : Bytes) : Quiet (makeBackupFor o p) :=
+  makeBackupFor_spec good_quiet o p (fun _ _ => QR.of_eq rfl rfl) (fun _ _ => Quiet.doOp _) (fun _ => Quiet.doOp _)
+
+theorem writePatchedResult_quiet (p : Patch) (f : Bytes) (perm : PermResult) (c : Bytes) :
+    Quiet (writePatchedResult p f perm c) := by
+  unfold writePatchedResult; spec_walk good_quiet
+
+macro_rules | `(tactic| spec_leaf $_) => `(tactic| with_reducible first
+  | exact promptForFilepath_quiet _ | exact makeBackupFor_quiet _ _ | exact writePatchedResult_quiet _ _ _ _)
+
+theorem finalizeDeferred_quiet : Quiet finalizeDeferred := by
+  unfold finalizeDeferred; spec_walk good_quiet
+
 end PatchModel.DriverFacts
